@@ -1,13 +1,15 @@
 FO = {0: "fatal", 1: "bug", 2: "warning", 3: "info", 4: "invalid", 5: "omitted", 6: "sym"}
 
 
-def J(cmd, n, fo, ms=5, owner=0, orders="all"):
+def J(cmd, n, fo, ms=5, owner=0, orders="all", fold=0):
     name = "%s-n%d-fo_%s" % ("ci" if cmd else "lint", n, FO[fo])
+    if fold:
+        name += "-fold%d" % fold
     if not cmd:
         name += "-ms_%s" % FO[ms]
     if owner:
         name += "-owner"
-    return {"name": name, "func": "VerifHarness_Exit", "params": {"cmd": cmd, "n": n, "fo": fo, "ms": ms, "owner": owner},
+    return {"name": name, "func": "VerifHarness_Exit", "params": {"cmd": cmd, "n": n, "fo": fo, "ms": ms, "owner": owner, "fold": fold},
             "unwind": 40, "reach": ["end"], "maporders": orders}
 
 
